@@ -56,6 +56,30 @@ CLAIMED = {
         '(SUM, COUNT, MAX, IF, IFERROR, ISERROR). Whole-column references are '
         'not generated here.',
         'DESIGN.md 4/C03'),
+    'C04': (
+        'TLC model checking of Refs.tla (column letters bijective over all '
+        '16 384 columns; the space of spellings with their denotations) + '
+        'replay: every spelling resolved by the real code in three ways, '
+        'partition by identifier = partition by denotation, identifiers read '
+        'back, _index2col/_col2index for every column',
+        'Refs.tla checks ColBijection / LastCol for every column and RelAbs '
+        'for the relative spellings, and enumerates the spellings (13 styles: '
+        'A1, lower case, $ markers, R1C1, relative offsets from two hosts, '
+        'redundant X:X, whole rows / columns and their full-extent forms) x '
+        'sheet part (none, plain, lower, quoted) x workbook part (none, file, '
+        'external-link id) of rectangles over boundary columns and rows, each '
+        'with its denotation. Every spelling is rendered and resolved by the '
+        'Range token, by Ranges.push and as the input of a compiled formula: '
+        'spellings of one rectangle must get one identifier on every route, '
+        'different rectangles / sheets / workbooks different ones, the three '
+        'routes must agree (fast paths vs the general resolver) and every '
+        'identifier must read back to itself. The identifier text is never '
+        'predicted.',
+        'Trusted: TLC; the rendering of a spelling record to text '
+        '(harness/checks/c04.py render). Case of workbook file names and '
+        'reversed corners (B2:A1) are not among the spellings the property '
+        'lists and are not generated.',
+        'DESIGN.md 4/C04'),
     'C05': (
         'TLC model checking of XlArray.tla (lifting under broadcasting, '
         'fitting, arity independence over all shape combinations <= 3x3) + '
